@@ -17,7 +17,7 @@ import (
 func init() {
 	register(&propSpec{ID: "C20", Run: checkC20,
 		Explanation: "(a) Every potentially panicking operation in repo code reachable from RunOnce — index and slice expressions, unchecked type assertions, integer divisions, explicit panics, and dereferences of values that are optional by construction (results paired with an error/ok, map lookups, pointer fields of Kubernetes / AWS API objects) — is discharged by a dominating guard found as a path-condition implication (len / nil / comma-ok / err == nil), by being a range index, or by a reviewed table entry with its reason; (b) results of failed calls are never dereferenced; (c) the ways a scan can stop the process are enumerated: log.Fatal*/os.Exit/panic sites and non-nil returns of RunOnce other than *NodeNotInNodeGroup are reported (three recorded findings); (d) every loop reachable from RunOnce is a range, has a monotone induction variable against an invariant bound, is a chunking loop, or is a timed wait; time.Sleep arguments are constants.",
-		RuleText:    "R1 one obligation per panic site, R2 fallible-result dereferences (same census), R3 stop census (exit calls + RunOnce returns), R4 one obligation per loop + Sleep arguments, R5 guarded float divisions, R6 per-group containment",
+		RuleText:    "R1 one obligation per panic site, R2 fallible-result dereferences (same census), R3 stop census (exit calls + RunOnce returns), R4 one obligation per loop + Sleep arguments, R5 guarded float divisions, R6 per-group containment, R7 allocation sizes non-negative and bounded by held quantities, R8 library preconditions (metric label arity, Counter.Add sign, ticker interval, mutex pairing)",
 		Assumptions: []string{"parameters, receivers and elements of lister results are non-nil (client-go contract)", "absence of hangs inside client-go / the AWS SDK and 'the next scan proceeds normally' are liveness over library and network behaviour: not decided", "successful AWS replies are well-formed (reviewed table)"}})
 }
 
@@ -123,6 +123,8 @@ func checkC20(ck *Check) {
 	ck.loopCensus("C20.R4", fns)
 	ck.percentGuards("C20.R5")
 	ck.loopContainment("C20.R6")
+	ck.allocationBounds("C20.R7", fns)
+	ck.libraryPreconditions("C20.R8", fns)
 }
 
 func (ck *Check) indexSite(ctx *Ctx, in ssa.Instruction, x, idx ssa.Value, mkKey func(string) string, counts map[string]int) {
@@ -387,10 +389,7 @@ func (ck *Check) stopCensus(rule string, fns []*ssa.Function) {
 			if f == nil {
 				continue
 			}
-			p := pkgPathOfFn(f)
-			isExit := (strings.Contains(p, "logrus") && (strings.HasPrefix(f.Name(), "Fatal") || strings.HasPrefix(f.Name(), "Panic"))) ||
-				(p == "os" && f.Name() == "Exit") || (p == "log" && (strings.HasPrefix(f.Name(), "Fatal") || strings.HasPrefix(f.Name(), "Panic")))
-			if !isExit {
+			if !isExitCallee(f) {
 				continue
 			}
 			n++
@@ -791,4 +790,14 @@ func mayReturnTypedNil(f *ssa.Function, idx int) bool {
 		}
 	}
 	return false
+}
+
+// isExitCallee: logrus / log Fatal* and Panic*, os.Exit.
+func isExitCallee(f *ssa.Function) bool {
+	if f == nil {
+		return false
+	}
+	p := pkgPathOfFn(f)
+	return (strings.Contains(p, "logrus") && (strings.HasPrefix(f.Name(), "Fatal") || strings.HasPrefix(f.Name(), "Panic"))) ||
+		(p == "os" && f.Name() == "Exit") || (p == "log" && (strings.HasPrefix(f.Name(), "Fatal") || strings.HasPrefix(f.Name(), "Panic")))
 }
